@@ -56,6 +56,9 @@ theorem C17_overlong_entry_fails (e : Entry) (origin vlen : Nat) (m : Media)
   have hcat := sectorsConcat_none (volumeAccess origin vlen m) _ e.startSector i hi hnone
   -- the loop reads exactly those sectors
   unfold readBody bodyPieces
+  have hne0 : (e.fileLength == 0) = false := by simp; omega
+  rw [hne0]
+  simp only [Bool.false_eq_true, if_false]
   have hl := last_sector_eq e.m he
   have hne : ¬ file_length e.m = 0 := by unfold Entry.fileLength at hlen; omega
   rw [if_neg hne] at hl
